@@ -58,7 +58,7 @@
    A14 :378 `search.len() as isize - 1`, :383 `mid - 1`   isize no_overflow (same theorem; `len ≤ isize::MAX`)
   Geometric, NegativeBinomial, Poisson, Bernoulli: no integer `+`/`*` besides A1/A2 (`x - 1` in Geometric is
   `usub`, covered by `geometric_pmf_no_underflow`); Multinomial is not in the generated model (its
-  `x.iter().sum::<u64>()`, multinomial.rs:309/:344, is the list sum of `list_sum_overflow_iff` in Draft/Lemmas/IntegerOverflow.lean).
+  `x.iter().sum::<u64>()`, multinomial.rs:309/:344, is the list sum of `list_sum_overflow_iff` in Lemmas/IntegerOverflow.lean).
   src/function/factorial.rs
    A15 :77  `acc.0 + x` (checked_multinomial)        u64  OVERFLOW iff `Σ ni > u64::MAX`
          (`checked_multinomial_sum_eq`, `list_sum_overflow_iff`, `checked_multinomial_overflow_witness`:
